@@ -207,7 +207,8 @@ INT_TEMPLATES = [     # (template, value)   {} = the integer operand
     ('csrrw x1, x2, {}', 0x300), ('csrrs x5, x0, {}', -1024),
     ('c.addi x8, {}', 5), ('c.li x8, {}', -1), ('c.lui x8, {}', 3), ('c.slli x8, {}', 4), ('c.srli x8, {}', 2), ('c.srai x9, {}', 31), ('c.andi x8, {}', -32),
     ('c.lw x8, x9, {}', 4), ('c.lw x8, {}(x9)', 124), ('c.sw x8, x9, {}', 8), ('c.addi16sp {}', -64), ('c.addi4spn x8, {}', 1020), ('c.lwsp x5, {}', 252),
-    ('c.swsp x5, {}', 4), ('c.j {}', 16), ('c.jal {}', -2), ('c.beqz x8, {}', 254), ('c.bnez x9, {}', -256),
+    ('c.swsp x5, {}', 4),
+    # (no c.j / c.jal / c.beqz / c.bnez: like for jal and beq a NAME in that position is a label-style reference, not an offset)
 ]
 REG_TEMPLATES = [     # {} = a register operand
     'add {}, x1, x2', 'add x1, {}, x2', 'add x1, x2, {}', 'sub {}, {}, x9', 'and x8, x8, {}', 'mul {}, x5, x6', 'slli {}, x8, 3', 'slli x8, {}, 3',
@@ -272,7 +273,7 @@ def batch_cases():
             b = [t.replace('{}', lits[(i + rot) % 2]) if (i + rot) % 3 else t.replace('{}', lits[i % 2]) for i, t in enumerate(regs)]
             for chunk in range(0, len(a), 12):
                 cases.append(dict(kind='reg-batch', defs=defs, with_const='\n'.join(a[chunk:chunk + 12]), literal='\n'.join(b[chunk:chunk + 12])))
-    ints = [(t, v) for t, v in INT_TEMPLATES if 'L0' not in t and not t.startswith('c.j') and not t.startswith('c.b')]
+    ints = [(t, v) for t, v in INT_TEMPLATES if 'L0' not in t]
     for chunk in range(0, len(ints), 10):
         sub = ints[chunk:chunk + 10]
         d = ['K%d = %d' % (i, v) for i, (t, v) in enumerate(sub)]
